@@ -94,7 +94,10 @@ def rule_lexical(body, applied):
         ('R1', r'\b(u16|u32|u64)::from_le_bytes\(', r'\1_from_le_bytes_v('),
         ('R1', r'\b(u16|u32|u64)::from_be_bytes\(', r'\1_from_be_bytes_v('),
         ('R2', r'\.extend\(', '.extend_v('),
+        ('R18', r'\.as_bytes\(\)\.into\(\)', '.as_bytes().to_vec()'),
+        ('D2', r'\buse\s+[A-Za-z_][A-Za-z0-9_:{}, *]*;', ''),
         ('R3', r'\|_\|', '|_v0|'),
+        ('R3', r'\.map_err\((BSVErrors::[A-Za-z0-9_]+)\)', r'.map_err(|e_v0| \1(e_v0))'),
         ('R14', r'\blet\s+([A-Za-z_][A-Za-z0-9_]*)\s*=\s*&mut\s*\*', r'let mut \1 = '),
         ('R12', r'\bstd::io::ErrorKind\b', 'IoErrorKind'),
         ('R12', r'\bstd::io::Error\b', 'IoError'),
@@ -378,6 +381,9 @@ def splice(body, contract, applied):
             if arg.strip() == 'R9':
                 body, n = re.subn(r'\.iter\(\)', '.iter_v()', body)
                 applied.append({'rule': 'R9', 'pattern': '.iter() -> .iter_v()', 'count': n})
+            elif arg.strip() == 'R19':
+                body, n = re.subn(r'\.try_into\(\)', '.try_into_v()', body)
+                applied.append({'rule': 'R19', 'pattern': 'slice.try_into() -> slice.try_into_v() (std slice-to-array TryFrom)', 'count': n})
             else:
                 raise GenError('%s: unknown @rule %s' % (contract.origin, arg))
         if kind == 'subst':
